@@ -337,12 +337,6 @@ func c06d(c *Ctx) {
 			c.Bad(inst, okRets[0].Pos(), "LoadLog can succeed although the published checkpoint is ahead of / differs from the lock checkpoint (path "+g.describePath(path)+")")
 		case cs.success && pt == nil:
 			c.Bad(inst, okRets[0].Pos(), "LoadLog cannot succeed in a legitimate start-up state")
-		case cs.staging == "never":
-			if p2, _ := g.ReachableFromEntry(cut, atAnySite(append(append([]Site{}, stagingFetch...), f.CallsW(specApply)...))); p2 != nil {
-				c.Bad(inst, f.Pos(p2.B.Nodes[p2.I]), "the staging bundle is applied although storage is already at the lock checkpoint")
-			} else {
-				c.add(Result{Instance: inst, Verdict: Discharged, Evals: 2, Detail: "success reachable, staging untouched"})
-			}
 		default:
 			d := "success unreachable"
 			if cs.success {
